@@ -101,6 +101,24 @@ def rule_classes(ctx, f):
         opt = [refs for ty, raw, refs in raw_consts(nw[0]) if "Option<&u8>" in ty]
         has37 = 37 in pct or [37] in opt
         ctx.check(has37, "C03-TABLE", "lexer::next_word#comment-start", "`%%` no longer starts a comment (byte compared: %s)" % opt, nw[0]["span"], detail="% starts a comment")
+        # ... and skipping is repeated: the test for `%` sits in a loop, so that any number of comment lines in a row is skipped
+        nb = nw[0]
+        ncfg = CFG(nb)
+        nloops = ncfg.loops()
+        pct_blocks = []
+        for i, bb in enumerate(nb["blocks"]):
+            js = [st for st in bb["stmts"] if st[0] == "assign" and st[2][0] == "use" and st[2][1][0] == "const" and "Option<&u8>" in str(st[2][1][1].get("ty", ""))]
+            tt = bb["term"]
+            if tt["k"] == "call" and last_seg(F.callee_name(tt)) in ("eq", "ne") and any("Option<&u8>" in ty["s"] for ty in tt["arg_tys"]):
+                pct_blocks.append(i)
+            for st in bb["stmts"]:
+                if st[0] == "assign" and st[2][0] == "binop" and st[2][1] in ("Eq", "Ne") and 37 in (F.const_int(st[2][2]), F.const_int(st[2][3])):
+                    pct_blocks.append(i)
+            if tt["k"] == "switch" and any(a[0] == 37 for a in tt["arms"]):
+                pct_blocks.append(i)
+        inloop = [i for i in pct_blocks if any(i in body for body in nloops.values())]
+        ctx.check(bool(inloop), "C03-TABLE", "lexer::next_word#comment-repeat", "the test for `%` is not inside a loop: only one comment is skipped, a second comment "
+                  "line in a row comes back as a token", nb["span"], detail="while next byte is `%`: skip to the end of the line")
 
 
 def rule_string(ctx, f):
@@ -144,6 +162,17 @@ def rule_string(ctx, f):
             somes = [s for r in reg for s in b["blocks"][r]["stmts"] if s[0] == "assign" and s[2][0] == "aggregate" and s[2][1].get("variant") == "Some"
                      and F.const_int(s[2][2][0]) is not None]
             ok = "next_lexeme" in names and "peek_byte" in names and not somes
+            # the byte that is looked at (and skipped) after a CR is the LF of a CRLF pair
+            seen_consts = set()
+            for r in reg:
+                bb2 = b["blocks"][r]
+                if bb2["term"]["k"] == "switch" and bb2["term"].get("discr_ty") == "u8":
+                    seen_consts |= {a[0] for a in bb2["term"]["arms"]}
+                for s2 in bb2["stmts"]:
+                    if s2[0] == "assign" and s2[2][0] == "binop" and s2[2][1] in ("Eq", "Ne"):
+                        seen_consts |= {c for c in (F.const_int(s2[2][2]), F.const_int(s2[2][3])) if c is not None}
+            if eol == 13:
+                ok = ok and 10 in seen_consts
         ctx.check(ok, "C03-TABLE-str", "next_lexeme#continuation-" + name,
                   "backslash + %s is not a line continuation (skip the EOL, also the second byte of CRLF / LFCR, and go on)" % name, et["span"],
                   detail="\\%s -> continue with the next character" % name)
@@ -273,6 +302,24 @@ def rule_names_numbers(ctx, f):
             if tr == {46}:
                 dots |= tr
         ctx.check(dots == {46}, "C03-TABLE-tok", "Substr::real_number#dot", "decimal point test missing", rb["span"], detail="one '.'")
+        # `.5` and `-.5` are numbers: the position of the dot is not tested against a constant (an empty integer part is fine)
+        rfl = Flow(rb)
+        bad_cmp = []
+        for i, j, st in F.stmts(rb):
+            if st[0] == "assign" and st[2][0] == "binop" and st[2][1] in ("Eq", "Ne", "Lt", "Le", "Gt", "Ge") and (F.const_int(st[2][2]) is not None or F.const_int(st[2][3]) is not None):
+                o = st[2][3] if F.const_int(st[2][2]) is not None else st[2][2]
+                l = F.op_local(o)
+                for a in rfl.origins(l, passthrough=()) if l is not None else []:
+                    if a[0] == "call" and last_seg(a[1]) == "position":
+                        # which closure does this position() use?  the one that tests for '.'
+                        cl = a[3]["args"][1] if len(a[3]["args"]) > 1 else None
+                        ty = a[3]["arg_tys"][1]["s"] if len(a[3]["arg_tys"]) > 1 else ""
+                        for c in f.closures_of(rb["id"]):
+                            tr, fa, ot = predicate_sets(c, arg_subject(2))
+                            if tr == {46} and ("@" + ":".join(c["span"].split(":")[:3]) + ":") in ty:
+                                bad_cmp.append(st)
+        ctx.check(not bad_cmp, "C03-TABLE-tok", "Substr::real_number#fraction-only", "the position of the decimal point is compared with a constant: a number without "
+                  "integer part (`.5`, `-.5`) is rejected", rb["span"], detail="empty integer part accepted")
     # keywords known to the object parser
     kws = set()
     for b in f.bodies.values():
@@ -345,10 +392,25 @@ def rule_rollback(ctx, f):
             ctx.check(ok, "C03-G1", "_parse_with_lexer_ctx#integer-rollback-%d" % k,
                       "an integer is returned without rolling the look-ahead back: the following token(s) are swallowed", p["blocks"][i]["term"]["span"],
                       detail="set_pos(pos_bk) before Primitive::Integer")
+        region = set()
+        for i, s0 in ints:
+            region |= {x for x in cfg.reachable_from(first[0]) if cfg.can_reach(x, i)}
+        # look-ahead advances: Lexer::next calls that lie between the first lexeme and the integer test / the Integer constructions
+        adv = [bi for bi, t in F.calls(p) if last_seg(F.callee_name(t)) == "next" and "Lexer" in F.callee_name(t) and
+               (bi in region or (cfg.can_reach(bi, first[0]) and any(cfg.dominates(g0, bi) for g0, gt in F.calls(p) if last_seg(F.callee_name(gt)) == "get_pos")) or
+                any(cfg.dominates(bi, i) for i, s0 in ints))]
+        firstnext = [bi for bi, t in F.calls(p) if last_seg(F.callee_name(t)) == "next" and "Lexer" in F.callee_name(t) and all(cfg.dominates(bi, i) for i, s0 in ints)]
+        firstnext = sorted(firstnext, key=lambda x: sum(1 for y in firstnext if cfg.dominates(y, x)))
         for bi, t in sp:
             l = arg_local(t, 1)
-            ok = l is not None and any(a[0] == "call" and last_seg(a[1]) == "get_pos" for a in fl.origins(l))
+            gps = [a[2] for a in fl.origins(l) if a[0] == "call" and last_seg(a[1]) == "get_pos"] if l is not None else []
+            ok = bool(gps)
             ctx.check(ok, "C03-G1", "_parse_with_lexer_ctx#rollback-target", "the roll-back position is not one saved with get_pos()", t["span"], detail="pos_bk = lexer.get_pos()")
+            # the saved position is the one right after the first lexeme: only the read of that first lexeme comes before the save
+            before = [x for x in firstnext for g in gps if x != g and cfg.dominates(x, g)]
+            ctx.check(ok and len(set(before)) <= 1, "C03-G1", "_parse_with_lexer_ctx#rollback-saved-first", "the position is saved after the look-ahead has advanced (%d reads of "
+                      "the lexer precede the save): the roll-back lands behind the next token, which is swallowed" % len(set(before)), t["span"],
+                      detail="get_pos() directly after the first lexeme")
 
 
 def rule_lookahead(ctx, f):
@@ -379,6 +441,30 @@ def rule_lookahead(ctx, f):
                 err_t = [a[1] for a in sw["arms"] if a[0] == 1]
                 if err_t and not cfg.all_paths_pass(err_t[0], cfg.exits, set(ints)):
                     bad.append(t["span"])
+    # the look-ahead reads through Lexer::peek, which has to turn the end of the buffer into an empty lexeme itself
+    pk = f.body("parser::lexer::Lexer::<'a>::peek")
+    if pk is None:
+        ctx.lost("C03-G2", "Lexer::peek")
+    else:
+        pcfg = CFG(pk)
+        ev = {v["name"]: v["vi"] for v in f.adts.get("error::PdfError", {}).get("variants", [])}.get("EOF")
+        okp = False
+        for i, bb in enumerate(pk["blocks"]):
+            tt = bb["term"]
+            if tt["k"] != "switch":
+                continue
+            dl = F.op_local(tt["discr"])
+            for st in bb["stmts"]:
+                if st[0] == "assign" and st[1] == [dl] and st[2][0] == "discr" and any(e[0] == "downcast" and e[1] == "Err" for e in st[2][1][1:]):
+                    arms = {a[0]: a[1] for a in tt["arms"]}
+                    tgt = arms.get(ev)
+                    if tgt is not None:
+                        reach = pcfg.reachable_from(tgt, avoid={i}) | {tgt}
+                        oks = [r for r in reach for s2 in pk["blocks"][r]["stmts"] if s2[0] == "assign" and s2[1] == [0] and s2[2][0] == "aggregate" and s2[2][1].get("variant") == "Ok"]
+                        errs = [r for r in reach for s2 in pk["blocks"][r]["stmts"] if s2[0] == "assign" and s2[1] == [0] and s2[2][0] == "aggregate" and s2[2][1].get("variant") == "Err"]
+                        okp = bool(oks) and not errs
+        ctx.check(okp, "C03-G2", "Lexer::peek#eof-empty", "Lexer::peek hands the end of the buffer on as an error instead of an empty lexeme: the look-ahead after an integer "
+                  "that ends the buffer fails the whole parse", pk["span"], detail="Err(EOF) => Ok(empty lexeme)")
     ctx.check(not bad, "C03-G2", "_parse_with_lexer_ctx#eof-tolerant-lookahead",
               "the reference look-ahead fails the parse at the end of the buffer (%s): a bare integer as the last token (e.g. the last member of an "
               "object stream, or `42` alone) cannot be parsed" % bad, p["span"], detail="look-ahead uses peek (EOF -> empty lexeme)")
